@@ -18,6 +18,8 @@ def main():
     meta_in = json.load(open(os.path.join(sdir, "meta.json")))
     patch = os.path.join(sdir, "patch.diff")
     demo = os.path.join(sdir, "demo.rs")
+    if not os.path.exists(demo):
+        demo = os.path.join(sdir, "demo.sh")
     wt = "/tmp/ver_%s" % sid
     sh("git -C /repo worktree remove --force %s" % wt)
     rc, o = sh("git -C /repo worktree add --detach %s HEAD" % wt)
@@ -25,8 +27,15 @@ def main():
     rec = {"id": sid, "property": meta_in.get("property"), "summary": meta_in.get("summary"), "needs_to_manifest": meta_in.get("needs_to_manifest"), "ran": []}
     try:
         demo_name = "demo_%s" % sid.replace("-", "_")
-        shutil.copy(demo, os.path.join(wt, "q_compress", "examples", demo_name + ".rs"))
-        run_demo = "cargo run --offline --release -p q_compress --features timestamps_96 --example %s" % demo_name
+        if demo.endswith(".sh"):
+            run_demo = "bash %s %s" % (demo, wt)
+        elif "fn main" in open(demo).read():
+            shutil.copy(demo, os.path.join(wt, "q_compress", "examples", demo_name + ".rs"))
+            run_demo = "cargo run --offline --release -p q_compress --features timestamps_96 --example %s" % demo_name
+        else:
+            os.makedirs(os.path.join(wt, "q_compress", "tests"), exist_ok=True)
+            shutil.copy(demo, os.path.join(wt, "q_compress", "tests", demo_name + ".rs"))
+            run_demo = "cargo test --offline -p q_compress --features timestamps_96 --test %s" % demo_name
         rc0, o0 = sh(run_demo, cwd=wt)
         rec["demo_passes_without_change"] = (rc0 == 0)
         rc, o = sh("git apply %s" % patch, cwd=wt)
@@ -69,7 +78,7 @@ def main():
     rec["checks"] = results
     rec["caught_by"] = [c for c, r in results.items() if r["exit"] != 0]
     shutil.copy(patch, os.path.join(out, "patch.diff"))
-    shutil.copy(demo, os.path.join(out, "demo.rs"))
+    shutil.copy(demo, os.path.join(out, os.path.basename(demo)))
     json.dump(rec, open(os.path.join(out, "meta.json"), "w"), indent=1)
     print(json.dumps({k: rec[k] for k in ("id", "existing_tests_pass", "demo_fails_with_change", "demo_passes_without_change", "caught_by")}, indent=0))
     for c, r in results.items():
